@@ -6,9 +6,9 @@ wrong path."""
 import itertools
 
 ROLES = {
-    "M": ["none", "read", "assign", "aug", "walrus", "for", "def", "class", "import", "comp", "fortuple"],
-    "F": ["none", "read", "assign", "aug", "walrus", "param", "for", "comp", "gassign", "gread", "gaug", "nassign", "nread", "naug", "def", "class", "import", "kwparam", "starparam", "paramassign", "paramaug"],
-    "C": ["none", "read", "assign", "aug", "for", "gassign", "nassign", "readassign", "def", "import", "walrusless"],
+    "M": ["none", "read", "assign", "aug", "walrus", "for", "def", "class", "import", "comp", "fortuple", "whilewalrus", "forwalrus"],
+    "F": ["none", "read", "assign", "aug", "walrus", "param", "for", "comp", "gassign", "gread", "gaug", "nassign", "nread", "naug", "def", "class", "import", "kwparam", "starparam", "paramassign", "paramaug", "whilewalrus", "forwalrus"],
+    "C": ["none", "read", "assign", "aug", "for", "gassign", "nassign", "readassign", "def", "import", "walrusless", "whilewalrus", "forwalrus"],
     "L": ["none", "read", "param", "walrus", "default"],
     "G": ["none", "read", "target", "walrus", "readiter", "readcond"],
     "E": ["none", "read", "target", "readiter"],
@@ -82,6 +82,13 @@ def gen(t, path, ind, out):
     elif role == "fortuple":
         emit('for y, (x, *z) in [(0, (%s+"0", 1)), (1, (%s+"1", 2))]:' % (V, V))
         emit("    log(%s+':ft', show(x))" % V)
+    elif role == "whilewalrus":
+        emit("n_ = 0")
+        emit("while (x := %s + str(n_)) and n_ < 2:" % V)
+        emit("    n_ += 1")
+    elif role == "forwalrus":
+        emit("for q_ in [(x := %s), 1]:" % V)
+        emit("    pass")
     elif role == "comp":
         emit('log(%s+":c", [x for x in [%s+"c"]])' % (V, V))
     elif role == "def":
